@@ -81,6 +81,18 @@ Theorem source_dnf_redistributes : src_dnf_redistributes_c = true /\ src_dnf_red
 Proof. split; reflexivity. Qed.
 Print Assumptions source_dnf_redistributes.
 
+(* ---- WITHIN windows are compared as the real numbers of seconds they are (1.2 and 1.5 are different windows) ---- *)
+
+Theorem source_within_cmp : forall m1 e1 m2 e2,
+    qual_cmp (QWithin m1 e1) (QWithin m2 e2) = within_cmp_g src_within_cmp m1 e1 m2 e2.
+Proof. reflexivity. Qed.
+Print Assumptions source_within_cmp.
+
+Theorem alternative_within_truncated_refuted :
+  within_cmp_g WithinTruncated 12 1 15 1 = Eq /\ qual_cmp (QWithin 12 1) (QWithin 15 1) = Lt.
+Proof. split; vm_compute; reflexivity. Qed.
+Print Assumptions alternative_within_truncated_refuted.
+
 (* ---- simple_comparison_expression_cmp compares path, operator, negated (non-negated first), constant, in this order ---- *)
 
 Theorem source_comparison_fields : forall x y, atom_cmp x y = atom_cmp_by src_atom_steps x y.
